@@ -197,6 +197,9 @@ def build(node, env=None, path='r'):
         kw = {}
         if node.get('sort_fn') == 'stable_wrapper':
             kw['sort_fn'] = lambda it, reverse=False: sorted(list(it), reverse=reverse)
+        elif node.get('sort_fn') == 'inverting':
+            # a caller-supplied ordering that differs from the builtin one (like natsorted does): largest first
+            kw['sort_fn'] = lambda it, reverse=False: sorted(list(it), reverse=not reverse)
         if node['key'] is None:
             return done(ds.sort(reverse=node['reverse'], **kw))
         if node.get('wrap') is not None:
